@@ -47,3 +47,8 @@ package sanitize
 
 //@ func NewQuery
 //@   ensures built[C16]: result != nil && result1 == nil
+
+//@ func backtickState
+//@   loop 0 invariant cursor[C16]: l.start >= 0 && l.start <= l.pos && l.pos <= len(l.src) && l.src == old(l.src)
+//@   loop 0 decreases [C16,C10]: len(l.src) - l.pos
+//@   ensures cursor[C16]: l.start >= 0 && l.start <= l.pos && l.pos <= len(l.src) && l.src == old(l.src)
